@@ -52,6 +52,7 @@ type evaluator struct {
 	retVal    Value
 	depth     int
 	arena     []Cell
+	refs      []Ref // objects designated by the reference / pointer parameters of the current call (Symbol.RefSlot)
 }
 
 // cells returns n zeroed cells carved from a chunk (values are immutable once
@@ -88,6 +89,9 @@ func (ev *evaluator) trap(format string, a ...any) {
 // poison interns a reason and returns its id.
 func (ev *evaluator) poison(reason string) uint16 {
 	sh := ev.sh
+	if h := sh.prog.hooks; h != nil && h.mapReason != nil {
+		reason = h.mapReason(reason)
+	}
 	if id, ok := sh.reasonIdx[reason]; ok {
 		return id
 	}
@@ -170,6 +174,9 @@ func (ev *evaluator) evalRef(e Expr) Ref {
 		s := x.Sym
 		switch s.Kind {
 		case SymLocal, SymParam:
+			if s.IsRef {
+				return ev.refs[s.RefSlot]
+			}
 			return Ref{T: s.T, cells: ev.frame[s.Slot : s.Slot+s.T.nsc]}
 		case SymGlobal:
 			g := s.Global
@@ -213,6 +220,8 @@ func (ev *evaluator) evalRef(e Expr) Ref {
 		}
 		o := fieldOffset(base.T, x.Field)
 		return Ref{T: x.T, cells: base.cells[o : o+x.T.nsc]}
+	case refExpr:
+		return x.refCustom(ev)
 	}
 	// not an addressable expression: materialise the value
 	v := ev.eval(e)
@@ -331,7 +340,7 @@ func (ev *evaluator) indexRef(x *Index) Ref {
 		if base.buf != nil {
 			cs := base.compStride
 			if cs == 0 {
-				cs = 4
+				cs = leafSize(bt.Elem)
 			}
 			return Ref{T: bt.Elem, buf: base.buf, off: base.off + i*cs}
 		}
@@ -353,6 +362,9 @@ func (ev *evaluator) indexRef(x *Index) Ref {
 // ---- buffer leaves ----------------------------------------------------------
 
 func (ev *evaluator) bufLoad32(b *boundBuf, off int, t *Type) Cell {
+	if h := ev.sh.prog.hooks; h != nil && h.loadLeaf != nil {
+		return h.loadLeaf(ev, b, off, t)
+	}
 	if off < 0 || off+4 > len(b.data) {
 		ev.trap("load of %s at byte offset %d outside the %d bytes bound to block %s", t, off, len(b.data), b.blk.Name)
 	}
@@ -385,7 +397,7 @@ func (ev *evaluator) bufWalk(t *Type, lay *TypeLayout, off int, compStride int, 
 	case KVec:
 		cs := compStride
 		if cs == 0 {
-			cs = 4
+			cs = leafSize(t.Elem)
 		}
 		for i := 0; i < t.N; i++ {
 			f(off+i*cs, t.Elem)
@@ -396,7 +408,7 @@ func (ev *evaluator) bufWalk(t *Type, lay *TypeLayout, off int, compStride int, 
 				if lay.RowMajor {
 					f(off+r*lay.Stride+c*4, t.Elem)
 				} else {
-					f(off+c*lay.Stride+r*4, t.Elem)
+					f(off+c*lay.Stride+r*leafSize(t.Elem), t.Elem)
 				}
 			}
 		}
@@ -421,11 +433,11 @@ func (ev *evaluator) load(r Ref) Value {
 	if r.buf != nil {
 		if r.swz != nil {
 			cs := r.compStride
+			sc := r.T.Scalar()
 			if cs == 0 {
-				cs = 4
+				cs = leafSize(sc)
 			}
 			v := ev.mk(r.T)
-			sc := r.T.Scalar()
 			for i, k := range r.swz {
 				v.C[i] = ev.bufLoad32(r.buf, r.off+int(k)*cs, sc)
 			}
@@ -453,17 +465,27 @@ func (ev *evaluator) store(r Ref, v Value, pos Pos) {
 	if r.buf != nil {
 		if r.swz != nil {
 			cs := r.compStride
+			sc := r.T.Scalar()
 			if cs == 0 {
-				cs = 4
+				cs = leafSize(sc)
 			}
 			for i, k := range r.swz {
-				ev.bufStore32(r.buf, r.off+int(k)*cs, v.C[i], pos)
+				if h := ev.sh.prog.hooks; h != nil && h.storeLeaf != nil {
+					h.storeLeaf(ev, r.buf, r.off+int(k)*cs, sc, v.C[i], pos)
+				} else {
+					ev.bufStore32(r.buf, r.off+int(k)*cs, v.C[i], pos)
+				}
 			}
 			return
 		}
 		i := 0
+		h := ev.sh.prog.hooks
 		ev.bufWalk(r.T, r.lay, r.off, r.compStride, func(off int, st *Type) {
-			ev.bufStore32(r.buf, off, v.C[i], pos)
+			if h != nil && h.storeLeaf != nil {
+				h.storeLeaf(ev, r.buf, off, st, v.C[i], pos)
+			} else {
+				ev.bufStore32(r.buf, off, v.C[i], pos)
+			}
 			i++
 		})
 		return
@@ -542,6 +564,9 @@ func (ev *evaluator) eval(e Expr) Value {
 	case *Index, *Member:
 		return ev.load(ev.evalRef(e))
 	case *Method:
+		if x.Impl != nil {
+			return x.Impl(ev, x)
+		}
 		// .length() of a runtime-sized array (sized cases are folded)
 		r := ev.evalRef(x.X)
 		return intValue(int32(ev.runtimeLen(r)))
@@ -551,6 +576,8 @@ func (ev *evaluator) eval(e Expr) Value {
 	case *Comma:
 		ev.eval(x.L)
 		return ev.eval(x.R)
+	case customExpr:
+		return x.evalCustom(ev)
 	}
 	ev.trap("unsupported: expression node %T", e)
 	return Value{}
@@ -572,6 +599,9 @@ func oneOf(t *Type) Value {
 }
 
 func (ev *evaluator) unary(op string, v Value) Value {
+	if h := ev.sh.prog.hooks; h != nil && h.unary != nil {
+		return h.unary(ev, op, v)
+	}
 	r := ev.mk(v.T)
 	base := v.T.Base()
 	for i, c := range v.C {
@@ -832,6 +862,10 @@ func (ev *evaluator) binaryValues(op string, mode binMode, l, r Value, rt *Type,
 			}
 		}
 		return res
+	case bmCustom:
+		if h := ev.sh.prog.hooks; h != nil && h.binary != nil {
+			return h.binary(ev, op, l, r, rt, pos)
+		}
 	}
 	ev.trap("unsupported: binary mode %d", mode)
 	return Value{}
@@ -965,6 +999,9 @@ func (ev *evaluator) convertValue(v Value, to *Type, explicit bool) Value {
 	if v.T == to {
 		return v
 	}
+	if h := ev.sh.prog.hooks; h != nil && h.convert != nil {
+		return h.convert(ev, v, to)
+	}
 	fb, tb := v.T.Base(), to.Base()
 	if tb == KDouble || fb == KDouble {
 		ev.trap("unsupported: double-precision arithmetic")
@@ -1088,6 +1125,10 @@ func (ev *evaluator) callUser(x *Call) Value {
 	}
 	pOut := ev.poison(whyOutParam)
 	var outRefs []Ref
+	var refs []Ref
+	if fn.RefCount > 0 {
+		refs = make([]Ref, fn.RefCount)
+	}
 	// arguments are evaluated left to right
 	for i, p := range fn.Params {
 		slot := frame[p.Sym.Slot : p.Sym.Slot+p.T.nsc]
@@ -1106,14 +1147,17 @@ func (ev *evaluator) callUser(x *Call) Value {
 			for k := range slot {
 				slot[k].P = pOut
 			}
+		case "ref", "cref", "ptr":
+			// C++ reference / pointer parameter: bind the argument's object
+			refs[p.Sym.RefSlot] = ev.evalRef(x.Args[i])
 		}
 	}
-	saved := ev.frame
-	ev.frame = frame
+	saved, savedRefs := ev.frame, ev.refs
+	ev.frame, ev.refs = frame, refs
 	ev.depth++
 	ctl := ev.execBlock(fn.Body)
 	ev.depth--
-	ev.frame = saved
+	ev.frame, ev.refs = saved, savedRefs
 	var ret Value
 	if fn.Ret.Kind != KVoid {
 		if ctl == ctlReturn {
@@ -1136,7 +1180,7 @@ func (ev *evaluator) callUser(x *Call) Value {
 	// copy out, in parameter order
 	k := 0
 	for _, p := range fn.Params {
-		if p.Dir == "in" {
+		if p.Dir != "out" && p.Dir != "inout" {
 			continue
 		}
 		r := outRefs[k]
